@@ -5,7 +5,7 @@ text, struct variant = 1-entry map) and decodes request bodies for the model's `
 REAL ciborium + wire.rs types (`copia-corr cbor req`).
 """
 import os, re, struct, subprocess, shutil
-from bbox import Sandbox, Rng, blake3_hex, hexs, CLI_BIN, HARNESS_BIN
+from bbox import Sandbox, Rng, blake3_hex, hexs, CLI_BIN, helper_bin
 
 MAGIC = b"COPIA1"
 MAX_FRAME = 1 << 20
@@ -154,7 +154,7 @@ class ReqDecoder:
     """persistent `copia-corr cbor req`: real ciborium on frame bodies"""
 
     def __init__(self):
-        self.p = subprocess.Popen([HARNESS_BIN, "cbor", "req"], stdin=subprocess.PIPE, stdout=subprocess.PIPE, text=True, bufsize=1)
+        self.p = subprocess.Popen([helper_bin(), "cbor", "req"], stdin=subprocess.PIPE, stdout=subprocess.PIPE, text=True, bufsize=1)
         self.cache = {}
 
     def dec(self, body):
@@ -473,6 +473,9 @@ def run_c12(pid, tier, seed, rundir, model_run, res, count):
             tree[rng.pick(PATHS12)] = rng.pick(CONTENTS)
         if any(k.startswith(o + "/") or o.startswith(k + "/") for k in tree for o in tree if k != o):
             tree = {}
+        if i % 3 == 1:
+            # committed content whose NAME has the shape of a staging file of a process that is long gone (the number is above any pid)
+            tree[["cache/index.4199999.copia-tmp", "g.txt.4200001.copia-tmp"][(i // 3) % 2]] = rng.pick(CONTENTS)
         stream, kind, desc = gen_stream(rng, tree)
         if i < len(corpus):
             tree, stream, kind, desc = corpus[i]
@@ -486,8 +489,9 @@ def run_c12(pid, tier, seed, rundir, model_run, res, count):
         table, contents = walk_stream(stream, dec)
         toks = parse_replies(out)
         exit_tok = {0: "exit0", 1: "exit1"}.get(rc, f"rc={rc}")
-        # staging leftovers are reserved names: not part of the compared tree
-        after_cmp = {k: v for k, v in after.items() if not k.endswith(".copia-tmp")}
+        # staging leftovers of THIS session are reserved names: not part of the compared tree. A file of the initial tree whose name
+        # merely has that shape is committed content like any other (seed C12-J: a start-up sweep removed it before reading a byte)
+        after_cmp = {k: v for k, v in after.items() if not k.endswith(".copia-tmp") or k in tree}
         hash_inputs = set(tree.values()) | set(contents) | set(after_cmp.values())
         hl = sorted(hash_inputs)
         ht = dict(zip(hl, blake3_hex(hl)))
@@ -603,7 +607,11 @@ def run_c11(pid, tier, seed, rundir, model_run, res, count):
             for p in paths:
                 c = b"payload-" + p.encode()[:20]
                 h = bytes.fromhex(blake3_hex([c])[0])
-                stream += frame(req_get(p)) + frame(req_put(p, None, len(c), h)) + c + frame(req_delete(p, h)) + frame(req_get("zz/keep"))
+                c2 = b"loses the CAS-" + p.encode()[:20]
+                h2 = bytes.fromhex(blake3_hex([c2])[0])
+                # … and a Put with a STALE expectation: its bytes go to a conflict-copy name built from the path — inside the root too
+                stream += (frame(req_get(p)) + frame(req_put(p, None, len(c), h)) + c + frame(req_put(p, h2, len(c2), h2)) + c2
+                           + frame(req_delete(p, h)) + frame(req_get("zz/keep")))
             stream += frame(req_bye())
             tf = sb.path("trace.txt")
             rc, out, err = run_server(sb, root, stream, strace_out=tf)
@@ -627,12 +635,12 @@ def run_c11(pid, tier, seed, rundir, model_run, res, count):
                 res["violations"].append(("file-outside-root-changed", "a file outside the served directory was created, changed or removed", rep))
             count("sessions")
             count("fs-calls-seen", len(tp))
-            # replies: 4 per path (get, put, delete, get a/b) after the hello
+            # replies: 5 per path (get, put, stale put, delete, get zz/keep) after the hello
             body = toks[1:]
             for k, p in enumerate(paths):
-                chunk = body[4 * k:4 * k + 4]
-                refused_real = (len(chunk) >= 3 and all(c == "error:bad_path" for c in chunk[:3]))
-                any_refused = any(c == "error:bad_path" for c in chunk[:3])
+                chunk = body[5 * k:5 * k + 5]
+                refused_real = (len(chunk) >= 4 and all(c == "error:bad_path" for c in chunk[:4]))
+                any_refused = any(c == "error:bad_path" for c in chunk[:4])
                 ops.append(f"safejoin {hexs(p)}")
                 impl.append("refused" if refused_real else ("MIXED" if any_refused else "ok"))
                 reps.append(dict(rep, path=p, chunk=chunk))
@@ -640,10 +648,10 @@ def run_c11(pid, tier, seed, rundir, model_run, res, count):
                 must_refuse = p.startswith("/") or ".." in p.split("/") or first_name == ".copia"
                 count("path/" + ("must-refuse" if must_refuse else "must-accept"))
                 if must_refuse and not refused_real:
-                    res["violations"].append(("dotdot-or-absolute-not-refused", f"path {p!r} (absolute, with a '..' component, or inside the control directory) was not refused by all three request kinds", dict(rep, path=p, chunk=chunk)))
-                if len(chunk) == 4 and not chunk[3].startswith("content:6:"):
-                    res["violations"].append(("connection-unusable-after-request", f"after the requests for {p!r} a plain Get zz/keep was answered {chunk[3]}", dict(rep, path=p, chunk=chunk)))
-                if len(chunk) < 4 and rc not in (0,):
+                    res["violations"].append(("dotdot-or-absolute-not-refused", f"path {p!r} (absolute, with a '..' component, or inside the control directory) was not refused by all request kinds", dict(rep, path=p, chunk=chunk)))
+                if len(chunk) == 5 and not chunk[4].startswith("content:6:"):
+                    res["violations"].append(("connection-unusable-after-request", f"after the requests for {p!r} a plain Get zz/keep was answered {chunk[4]}", dict(rep, path=p, chunk=chunk)))
+                if len(chunk) < 5 and rc not in (0,):
                     pass
     return ops, impl, reps
 
